@@ -17,7 +17,7 @@ RULE = ('case = wallet (strategy, fee rate, 3..40 UTXOs, 1-2 accounts) + a round
 ASSUMPTIONS = ['interleavings are produced only at existing suspension points (around AIOSQLite.run); the single sqlite writer thread is real',
                'broadcast is simulated by saving the transaction I/O through the real save_transaction_io (inputs become spent)']
 REQUIRED_HITS = ['D4.failed_after_reserving', 'D1.pairs_checked', 'D2.checked', 'D3.checked', 'D4.failed_builds', 'round.some_failed_some_succeeded',
-                 'phase2.late_build', 'phase3.release', 'phase3.broadcast', 'phase3.build_in_between', 'chaos.points']
+                 'resync.during_builds', 'resync.while_held', 'phase2.late_build', 'phase3.release', 'phase3.broadcast', 'phase3.build_in_between', 'chaos.points']
 
 
 class InjectedFault(Exception):
@@ -59,9 +59,22 @@ async def _round(rec, case):
         spend = 148 * rate
         nutxo = r.randrange(3, 40)
         amounts = [r.randrange(spend * 3, spend * 3 + 10 ** r.randrange(4, 10)) for _ in range(nutxo)]
-        await fx.fund([(r.randrange(nacc), r.choice([0, 1]), r.randrange(20), a) for a in amounts], height=10)
+        funded = [await fx.fund([(r.randrange(nacc), r.choice([0, 1]), r.randrange(20), a) for a in amounts], height=10)]
         if r.random() < 0.4:
-            await fx.fund([(r.randrange(nacc), 0, r.randrange(20), a) for a in amounts[:3]], height=0, is_verified=False)
+            funded.append(await fx.fund([(r.randrange(nacc), 0, r.randrange(20), a) for a in amounts[:3]], height=0, is_verified=False))
+
+        async def resync(why):
+            # what the address-history sync does when a stored transaction's height changed (mempool -> block, reorg, second status
+            # update): Ledger.update_history -> _sync_and_save_batch -> Database.save_transaction_io_batch of the SAME transaction.
+            # It must not disturb reservations (seeded break C14-C: the re-save recreated the txo rows unreserved)
+            ftx, ftxos = funded[r.randrange(len(funded))]
+            ftx.height = max(ftx.height, 10) + 1
+            seen = {}
+            for o in ftxos:
+                seen[o.get_address(ledger)] = o.pubkey_hash
+            for address, h160 in seen.items():
+                await ledger.db.save_transaction_io_batch([ftx], address, h160, f'{ftx.id}:{ftx.height}:')
+            rec.hit('resync.' + why)
         initial = await fx.txo_snapshot()
         total = sum(t['amount'] for t in initial.values())
         accounts = fx.accounts
@@ -106,7 +119,12 @@ async def _round(rec, case):
         for i in range(nb):
             amt = max(1, int(total * share * r.uniform(0.5, 1.2)))
             tasks.append(asyncio.get_running_loop().create_task(build(f'b{i}', amt), name=f'b{i}'))
+        syncer = asyncio.get_running_loop().create_task(resync('during_builds'), name='sync') if r.random() < 0.5 else None
         results = await asyncio.gather(*tasks, return_exceptions=True)
+        if syncer is not None:
+            await syncer
+        if r.random() < 0.6:
+            await resync('while_held')
         for i, res in enumerate(results):
             if isinstance(res, BaseException):
                 import traceback
